@@ -65,8 +65,13 @@ def ext_forms(n3: bool) -> t.List[t.List[str]]:
         E.append(["S", "X-ORIGIN", "S"] + q)
     E.append(["S", "x-a_b-c", "S", "'v'"])
     E.append(["S", "X--", "S", "'v'"])
+    # names whose own text begins with the prefix again (the key is what follows the FIRST "X-" only)
+    E.append(["S", "X-X-ORIGIN", "S", "'v'"])
+    E.append(["S", "X-x-flag", "S", "'v'"])
+    E.append(["S", "X-X-", "S", "'v'"])
     second = [["S", "X-B", "S", "'w'"], ["S", "X-B", "S", "(", "W", "'w'", "S", "'z'", "W", ")"]]
-    two = [a + b for a in E[:4] + E[-5:] for b in second]
+    two = [a + b for a in E[:4] + E[-8:] for b in second]
+    two.append(["S", "X-ORIGIN", "S", "'a'", "S", "X-X-ORIGIN", "S", "'b'"])
     three = [a + second[0] + ["S", "X-C_", "S", "(", "W", "'q'", "W", ")"] for a in E[:3]] if n3 else []
     many = []
     for i in range(10):
